@@ -20,9 +20,14 @@
     scenario pop their jobs from ONE order function ([order_fn], utils.JobsOrderByQueues) handed the
     SAME jobs ([all_pending], common.GetJobsToAllocate); the statements hold for EVERY order function.
 
+    Section 5: size consistency.  The gates of the class count a pending job by the size it is charged once it
+    holds a slot; [reclaim_ok_sized g] makes the counted size a parameter ([gate_size g j], the value of
+    podgroup_info.GetTasksToAllocateInitResource) and the theorems say where the rank proof needs
+    [gate_size j = charged_size j] (weaker: [charged_size j <= gate_size j]) and what happens without it.
+
     NOT PROVED: [C15_general] (gangs, several resources, deep hierarchies) - see the end. *)
 From Coq Require Import List ZArith QArith Bool.
-From KaiV Require Import Model.ClosedSystem Proofs.ClosedSystem Proofs.ClosedSystemOrder.
+From KaiV Require Import Model.ClosedSystem Proofs.ClosedSystem Proofs.ClosedSystemOrder Proofs.ClosedSystemSize.
 Import ListNotations.
 Open Scope Z_scope.
 
@@ -215,6 +220,101 @@ Print Assumptions C15_different_job_sets_refuted.
 Theorem C15_no_lasso_any_simulated_job_set_refuted : ~ C15_no_lasso_any_simulated_job_set.
 Proof. exact any_job_set_refuted. Qed.
 Print Assumptions C15_no_lasso_any_simulated_job_set_refuted.
+
+(** 5. SIZE CONSISTENCY: the size by which the reclaim gate counts a pending job (podgroup_info.
+    GetTasksToAllocateInitResource -> proportion.buildReclaimerInfo -> CanReclaimResources, both strategies, the
+    saturation rule) vs the size the job is charged once it holds its slot (AcceptedResource).  [reclaim_ok_sized g]
+    counts the reclaimer by [gate_size g]; [size_consistent p g]: gate_size j = charged_size j for every job;
+    [never_undercounted p g]: charged_size j <= gate_size j. *)
+
+(** 5a. With consistent sizes the sized gate IS the gate of the class (this is the only place where sections 1 and 4
+    use the hypothesis: [reclaim_ok] has it built in). *)
+Theorem C15_consistent_sizes_gate_is_class_gate :
+  forall g m p s j v, size_consistent p g -> reclaim_ok_sized g m p s j v = reclaim_ok m p s j v.
+Proof. exact reclaim_ok_sized_consistent. Qed.
+Print Assumptions C15_consistent_sizes_gate_is_class_gate.
+
+(** 5b. A gate that never under-counts (consistent, or counting more: devices of different memories, where the code
+    divides by the smallest device memory) only refuses more: every reclaim it admits is admitted by the gate of the
+    class (CanReclaimResources, both strategies and the saturation rule are monotone in the reclaimer's size). *)
+Theorem C15_never_undercounting_gate_only_refuses_more :
+  forall g m p s j v, never_undercounted p g -> wf_multb m = true ->
+  reclaim_ok_sized g m p s j v = true -> reclaim_ok m p s j v = true.
+Proof. exact reclaim_ok_sized_mono. Qed.
+Print Assumptions C15_never_undercounting_gate_only_refuses_more.
+
+(** 5c. Hence every decision the sized gate admits strictly decreases the rank of 1a ... *)
+Theorem C15_sized_rank_decreases :
+  forall g m p s d s',
+    never_undercounted p g ->
+    wf_paramsb p = true -> wf_multb m = true -> within_cap p s ->
+    apply_sized g m p s d = Some s' -> lexlt (rank p s') (rank p s).
+Proof. exact sized_rank_decreases. Qed.
+Print Assumptions C15_sized_rank_decreases.
+
+(** 5d. ... the sized system has no lasso through an eviction and only finitely many evicting cycles. *)
+Theorem C15_sized_no_lasso :
+  forall g m p, never_undercounted p g -> wf_paramsb p = true -> wf_multb m = true -> no_lasso (sized_system g m p).
+Proof. exact sized_no_lasso. Qed.
+Print Assumptions C15_sized_no_lasso.
+Theorem C15_sized_finitely_many_evicting_cycles :
+  forall g m p, never_undercounted p g -> wf_paramsb p = true -> wf_multb m = true ->
+  finitely_many_evictions (sized_system g m p).
+Proof. exact sized_finitely_many. Qed.
+Print Assumptions C15_sized_finitely_many_evicting_cycles.
+
+(** 5e. With consistent sizes a reclaim (gate counted by [g], then the solver's simulation over the shared order)
+    followed by the next allocate strictly decreases the rank when the first job popped is the reclaimer (4c with the
+    size hypothesis explicit), and is never undone by that allocate (4b). *)
+Theorem C15_consistent_sizes_reclaim_then_allocate_decreases_rank :
+  forall g m o p s j v s1,
+    size_consistent p g ->
+    order_sound o -> nodupb s = true -> free p s = 0 ->
+    wf_paramsb p = true -> wf_multb m = true ->
+    reclaim_sim_sized g m o all_pending p s j v = Some s1 ->
+    first_pop o p (remove1 v s) = Some j ->
+    lexlt (rank p (allocate o p s1)) (rank p s) /\ allocate o p s1 <> s.
+Proof. exact sized_reclaim_then_allocate. Qed.
+Print Assumptions C15_consistent_sizes_reclaim_then_allocate_decreases_rank.
+Theorem C15_sized_evicted_pod_not_rebound :
+  forall g m o p s j v s1,
+    never_undercounted p g -> wf_multb m = true ->
+    order_sound o -> nodupb s = true -> free p s = 0 ->
+    reclaim_sim_sized g m o all_pending p s j v = Some s1 ->
+    s1 = remove1 v s /\ mem v (allocate o p s1) = false.
+Proof. exact sized_reclaim_not_rebound. Qed.
+Print Assumptions C15_sized_evicted_pod_not_rebound.
+
+(** 5f. Without the hypothesis the statement is false (seeded change C15-3: a gpu-memory request on N devices counted
+    as the request on ONE device): every job is charged 6, the gate counts 3 (N = 2); queue A fair share 10 / deserved
+    5, queue B fair share 10 / deserved 10, two slots.  B holds both slots (12 > 10): A's job reclaims one (counted 3 <=
+    10).  Now A holds 6 > deserved 5 and B's job is counted 6 + 3 = 9 <= 10 = deserved(B): it reclaims the slot back,
+    although B really ends at 12 > 10.  Period 2, for ever.  The gate that counts the charged size refuses the way back;
+    the same world with ANY consistent sizing has no lasso. *)
+Definition C15_no_lasso_any_gate_size : Prop := no_lasso_any_gate_size.
+Theorem C15_undercounted_gate_refuted :
+  exists g p s0 s1 j v,
+    wf_paramsb p = true /\ undercounted_by 2 p g /\ within_cap p s0
+    /\ run_sized g (1, 1) p s0 [DReclaim j v] = Some s1 /\ run_sized g (1, 1) p s1 [DReclaim v j] = Some s0
+    /\ ~ no_lasso (sized_system g (1, 1) p)
+    /\ run (1, 1) p s1 [DReclaim v j] = None
+    /\ no_lasso (class_system (1, 1) p)
+    /\ (forall g', size_consistent p g' -> no_lasso (sized_system g' (1, 1) p)).
+Proof. exact undercounted_gate_lasso. Qed.
+Print Assumptions C15_undercounted_gate_refuted.
+Theorem C15_no_lasso_any_gate_size_refuted : ~ C15_no_lasso_any_gate_size.
+Proof. exact any_gate_size_refuted. Qed.
+Print Assumptions C15_no_lasso_any_gate_size_refuted.
+
+(** 5g. The size hypotheses are not vacuous: in the witness world the sizing 6 is consistent, the sizing 8 never
+    under-counts without being consistent, and both admit the first reclaim. *)
+Theorem C15_size_hypotheses_nonvacuous :
+  size_consistent uc_params (fun _ => 6) /\ never_undercounted uc_params (fun _ => 8)
+  /\ ~ size_consistent uc_params (fun _ => 8)
+  /\ run_sized (fun _ => 8) (1, 1) uc_params uc_s0 [DReclaim 1 3]%positive = Some uc_s1
+  /\ run_sized (fun _ => 6) (1, 1) uc_params uc_s0 [DReclaim 1 3]%positive = Some uc_s1.
+Proof. exact sized_nonvacuous. Qed.
+Print Assumptions C15_size_hypotheses_nonvacuous.
 
 (** 3c. The general statement: gangs (atomic jobs of any size), cpu / memory / gpu, queue
     forests of any depth, the full reclaim gate of the proportion plugin (model of C07),
